@@ -1,5 +1,6 @@
 import Vflow.Model.Mirror
 import Vflow.Proofs.Mirror
+import Vflow.Gen.MirrorFacts
 /-!
 # C16 — mirrored datagrams reach the third-party collector unchanged
 
@@ -164,5 +165,58 @@ example : IsV4 [192, 168, 1, 1] [192, 168, 1, 1] ∧ IsV4 (mapped [127, 0, 0, 1]
 would get total length 0 -/
 theorem total_length_wraps :
     setLen4 (List.replicate 20 0) (65508 + 8) = .ok (List.replicate 20 0) := by decide
+
+/-! ## the generated facts (re-extracted from the Go source on every run) tie the model's constants to the code -/
+
+open Vflow.Gen.MirrorFacts in
+/-- what the model transcribes of a mirror worker, written with the model's own constants: buffer of
+`bufExtra + max` octets, `ipHLen = 20`, `SetLen(pLen + 8)`, `udp.SetLen(pLen)`, the three copies at
+`[0:20]`, `[20:28]`, `[28:]`, `Send(packet[0 : 28 + pLen])`, `Put(msg.body[:max])`, and the statement order -/
+def expectedWorker (sport : Nat) : Worker :=
+  { bufSize := .lin bufExtra 0 1
+    srcPort := .lin sport 0 0
+    dstPort := "port"
+    ipHLenV4 := .lin ipv4HLen 0 0
+    pLenIs := "len(msg.body)"
+    setLenArg := .lin udpHLen 1 0
+    udpSetLenArg := .lin 0 1 0
+    copies := [(.lin 0 0 0, .lin ipv4HLen 0 0, "ipHdr"),
+               (.lin ipv4HLen 0 0, .lin (ipv4HLen + 8) 0 0, "udpHdr"),
+               (.lin (ipv4HLen + 8) 0 0, .len, "msg.body")]
+    sendLo := .lin 0 0 0
+    sendHi := .lin (ipv4HLen + 8) 1 0
+    putLo := .lin 0 0 0
+    putHi := .lin 0 0 1
+    loop := ["recv", "pLen", "SetAddrs(ipHdr,msg.raddr.IP,dst)", "SetLen", "udp.SetLen", "if !ipv4",
+             "copy", "copy", "copy", "Put", "Send"] }
+
+/-- `mirrorIPFIX` has the transcribed buffer size, offsets, bounds and statement order -/
+theorem gen_mirrorIPFIX : Gen.MirrorFacts.mirrorIPFIX = expectedWorker ipfixSrcPort := by decide
+
+/-- `mirrorSFlow` likewise -/
+theorem gen_mirrorSFlow : Gen.MirrorFacts.mirrorSFlow = expectedWorker sflowSrcPort := by decide
+
+/-- the constants of package mirror -/
+theorem gen_consts : Gen.MirrorFacts.constIPv4HLen = ipv4HLen ∧ Gen.MirrorFacts.constIPv6HLen = ipv6HLen ∧
+    Gen.MirrorFacts.constUDPHLen = udpHLen ∧ Gen.MirrorFacts.constUDPProto = udpProto := by decide
+
+/-- the header helpers of package mirror are, statement for statement, what `ipv4Tpl`, `setLen4`,
+`setAddrs`, `udpMarshal`, `udpSetLen` transcribe (template values, octet offsets 0,1,2,6,7,8,9 / 2 /
+12..16,16..20 with `To4` / 0,2,4,6 / 4) -/
+theorem gen_headers :
+    Gen.MirrorFacts.newIPv4HeaderTpl =
+      ["return IPv4{ Version: 4, IHL: 5, TOS: 0, TTL: 64, Protocol: uint8(proto), }"] ∧
+    Gen.MirrorFacts.ipv4Marshal =
+      ["b := make([]byte, IPv4HLen)", "b[0] = byte((ip.Version << 4) | ip.IHL)", "b[1] = byte(ip.TOS)",
+       "binary.BigEndian.PutUint16(b[2:], ip.Length)", "b[6] = byte(0)", "b[7] = byte(0)",
+       "b[8] = byte(ip.TTL)", "b[9] = byte(ip.Protocol)", "return b"] ∧
+    Gen.MirrorFacts.ipv4SetLen = ["binary.BigEndian.PutUint16(b[2:], IPv4HLen+uint16(n))"] ∧
+    Gen.MirrorFacts.ipv4SetAddrs = ["copy(b[12:16], src.To4())", "copy(b[16:20], dst.To4())"] ∧
+    Gen.MirrorFacts.udpMarshal =
+      ["b := make([]byte, UDPHLen)", "binary.BigEndian.PutUint16(b[0:], uint16(u.SrcPort))",
+       "binary.BigEndian.PutUint16(b[2:], uint16(u.DstPort))",
+       "binary.BigEndian.PutUint16(b[4:], uint16(UDPHLen+u.Length))",
+       "binary.BigEndian.PutUint16(b[6:], uint16(u.Checksum))", "return b"] ∧
+    Gen.MirrorFacts.udpSetLen = ["binary.BigEndian.PutUint16(b[4:], uint16(UDPHLen+n))"] := by decide
 
 end Vflow.C16
